@@ -83,7 +83,8 @@ def main(tier: str, seed: int, opts) -> int:
         "max_chain_depth": max_depth,
         "counters": stats,
         "fault_kinds_fired": {"construction_failed_part_way_after_ids_were_consumed": stats.get("failed_builds", 0),
-                              "of_which_killed_by_injected_exception": stats.get("interrupted_builds", 0)},
+                              "of_which_killed_by_injected_exception": stats.get("interrupted_builds", 0),
+                              "graph_built_from_a_worker_thread": stats.get("builds_in_worker_thread", 0)},
         "distinct_abstract_histories": len(hashes),
         "regression_replays_run": n_reg,
         "log_digest": digest.hexdigest(),
